@@ -225,6 +225,20 @@ theorem augmentLoop_nil (reg : Registry) : ∀ (fuel : Nat) (mods : Array Nat) (
       obtain ⟨rfl, rfl⟩ := hp
       simp
 
+theorem loopCount_nil (reg : Registry) (fuel : Nat) (mods : Array Nat) (s : PState) (h : PNil s) :
+    Rounds.loopCount reg fuel mods s = 0 :=
+  (Rounds.loopCount_eq_zero reg fuel mods s).mpr
+    (Or.inr (Or.inr (by rw [augmentPass_nil reg (mods.size + 1) mods 0 0 s h])))
+
+/-- With nothing pending the retry rounds stop after the first (empty) loop. -/
+theorem leftoverRounds_nil (reg : Registry) (fuel n : Nat) (mods : Array Nat) (s : PState) (h : PNil s) :
+    (leftoverRounds reg fuel n mods s).2 = s := by
+  cases n with
+  | zero => rfl
+  | succ n =>
+    rw [Rounds.leftoverRounds_succ, if_pos (loopCount_nil reg fuel mods s h)]
+    exact augmentLoop_nil reg fuel mods s h
+
 /-! ### the stages of `processAll` -/
 
 section Stages
@@ -244,9 +258,14 @@ theorem fixAll_nil (s : PState) (h : PNil s) : PNil (fixAll s) := h
 theorem afterLoop_nil (h : NoAugDev reg) : (afterLoop reg opts plug).2 = pstate0 reg opts plug :=
   augmentLoop_nil reg _ _ _ (pstate0_nil reg opts plug h)
 
+theorem afterRounds_nil (h : NoAugDev reg) : (afterRounds reg opts plug).2 = fixAll (pstate0 reg opts plug) := by
+  unfold afterRounds
+  rw [afterLoop_nil reg opts plug h]
+  exact leftoverRounds_nil reg _ _ _ _ (fixAll_nil _ (pstate0_nil reg opts plug h))
+
 theorem leftoverPass_nil (h : NoAugDev reg) : leftoverPass reg opts plug = (fixAll (pstate0 reg opts plug), 0) := by
   unfold leftoverPass
-  rw [afterLoop_nil reg opts plug h, ← Array.foldl_toList]
+  rw [afterRounds_nil reg opts plug h, ← Array.foldl_toList]
   refine foldl_inv (fun acc : PState × Nat => acc = (fixAll (pstate0 reg opts plug), 0)) _ _ _ rfl ?_
   rintro acc id _ rfl
   dsimp only
